@@ -335,6 +335,12 @@ func (f *FetcherWrap) FetchAccountByKey(ctx context.Context, pubKey []byte) (e2w
 	return w, f.wrapAcct(a), nil
 }
 
+// AddAccount forwards after a yield point (an account created at run time becomes visible here).
+func (f *FetcherWrap) AddAccount(ctx context.Context, w e2wtypes.Wallet, a e2wtypes.Account) error {
+	f.s.Yield("add-account", w.Name(), a.Name(), nil, f.inst, nil)
+	return f.Service.AddAccount(ctx, w, a)
+}
+
 // FetchAccounts forwards, wrapping every account.
 func (f *FetcherWrap) FetchAccounts(ctx context.Context, path string) (map[string]e2wtypes.Account, error) {
 	m, err := f.Service.FetchAccounts(ctx, path)
